@@ -119,7 +119,7 @@ func genBoxRule(r *Rng, hist map[string]int) string {
 			hist["boxfam-shorthand"]++
 		} else {
 			v := boxValue(r, f, class())
-			if f.short == "border-radius" && r.Chance(20) {
+			if f.short == "border-radius" && r.Chance(45) {
 				v += " " + boxValue(r, f, 0)
 			}
 			decls = append(decls, f.longs[r.Intn(4)]+": "+v+imp)
@@ -151,6 +151,10 @@ func glueBoxFamilies(r *Rng, n int, st *Stats) {
 		"a { inset: auto 2px; right: 9px; inset: 3px }",
 		"a { margin: 1px 2px 3px 4px; margin-top: 9px } a.c1 { margin-left: 7px }",
 		"a { border-radius: 1px 2px 3px 4px; border-top-right-radius: 9px }",
+		// corners with two radii (horizontal vertical), with and without a slash list before
+		"a { border-radius: 1px 2px / 3px; border-top-left-radius: 4px 5px }",
+		"a { border-radius: 1px; border-bottom-right-radius: 0px 2px; border-top-left-radius: 0px }",
+		"a { border-top-left-radius: 1px 2px; border-top-right-radius: 1px 2px; border-bottom-right-radius: 3px 2px; border-bottom-left-radius: 1px 4px }",
 	}
 	for _, p := range probes {
 		for _, o := range targets {
